@@ -14,5 +14,6 @@ import (
 	_ "fxmc/props/c10"
 	_ "fxmc/props/c11"
 	_ "fxmc/props/c13"
+	_ "fxmc/props/c15"
 	_ "fxmc/props/c18"
 )
